@@ -1,4 +1,5 @@
 """C03 — assignment writes exactly the addressed cells and nothing else."""
+import vlib
 import itertools, multiprocessing
 import numpy as np
 from vlib import show, parse, oracle, parse2, guarded
@@ -87,3 +88,7 @@ def run(Rn, tier, rng):
         if o.startswith("ERR"): m = s = "oracle-error: " + o[:80]
         else: m, s = parse(o)
         Rn.record(line, impl, m, s, nt, kind)
+
+
+def translator_tie():
+    return vlib.translator_tie(["view"])
